@@ -452,20 +452,45 @@ var rR10 = RuleRef{Name: "R10", Doc: "lossless carrier: the replicated proposal 
 				}
 				n++
 				good, why := true, ""
-				backslice(s.Val, func(v ssa.Value) bool {
-					if call, ok := v.(*ssa.Call); ok {
-						nm := callName(call)
-						if nm == "ToCommand" {
-							return false // the parsed argument vector itself
+				var vecOK func(val ssa.Value, depth int)
+				vecOK = func(val ssa.Value, depth int) {
+					backslice(val, func(v ssa.Value) bool {
+						if call, ok := v.(*ssa.Call); ok {
+							nm := callName(call)
+							if nm == "ToCommand" {
+								return false // the parsed argument vector itself
+							}
+							if nm == "Filter" || nm == "builtin.len" || nm == "builtin.append" {
+								return true
+							}
+							// a first-party helper that hands the vector on: its own [][]byte results are judged the same way
+							if cf := callee(call); cf != nil && firstParty(cf) && cf.Blocks != nil && depth < 3 {
+								any := false
+								for _, b := range cf.Blocks {
+									for _, in := range b.Instrs {
+										if ret, ok := in.(*ssa.Return); ok {
+											for _, alts := range retResults(ret) {
+												for _, rv := range alts {
+													if rv.Type().String() == "[][]byte" {
+														any = true
+														vecOK(rv, depth+1)
+													}
+												}
+											}
+										}
+									}
+								}
+								if any {
+									return false
+								}
+							}
+							good, why = false, "passes through "+nm
+							return false
 						}
-						if nm == "Filter" || nm == "builtin.len" || nm == "builtin.append" {
-							return true
-						}
-						good, why = false, "passes through "+nm
-						return false
-					}
-					return good
-				})
+						return good
+					})
+				}
+				vecOK(s.Val, 0)
 				c.Add("R10", fnName(fn), "the proposal is filled with the parsed argument vector itself", s.Pos(), good, "proposal data "+why)
 			}
 		}
@@ -577,12 +602,53 @@ var rR11 = RuleRef{Name: "R11", Doc: "fragmentation independence, structural par
 		c.Undecided("R11", "the parser's readState allocation")
 		return
 	}
+	var isErrAlloc func(v ssa.Value, at *ssa.BasicBlock) bool
 	isErrSend := func(in ssa.Instruction) bool {
 		snd, ok := in.(*ssa.Send)
 		if !ok {
 			return false
 		}
-		al, ok := snd.X.(*ssa.Alloc)
+		return isErrAlloc(snd.X, snd.Block())
+	}
+	// sendsParam: the parameters of a resp helper that it sends on a channel (directly)
+	sendsParam := func(fn *ssa.Function) map[int]bool {
+		out := map[int]bool{}
+		if fn == nil {
+			return out
+		}
+		for _, b := range fn.Blocks {
+			for _, in := range b.Instrs {
+				if snd, ok := in.(*ssa.Send); ok {
+					for i, p := range fn.Params {
+						if snd.X == ssa.Value(p) {
+							out[i] = true
+						}
+					}
+				}
+			}
+		}
+		return out
+	}
+	// errHandOff: a call that hands a freshly built error report to a helper which sends it
+	errHandOff := func(in ssa.Instruction) bool {
+		call, ok := in.(*ssa.Call)
+		if !ok {
+			return false
+		}
+		cf := callee(call)
+		if cf == nil || !firstParty(cf) || pkgRel(cf) != "resp" {
+			return false
+		}
+		sp := sendsParam(cf)
+		for i, a := range call.Call.Args {
+			if sp[i] && isErrAlloc(a, call.Block()) {
+				return true
+			}
+		}
+		return false
+	}
+	isErrAlloc = func(v ssa.Value, at *ssa.BasicBlock) bool {
+		al, ok := v.(*ssa.Alloc)
 		if !ok {
 			return false
 		}
@@ -602,7 +668,7 @@ var rR11 = RuleRef{Name: "R11", Doc: "fragmentation independence, structural par
 					case *ssa.Call, *ssa.MakeInterface, *ssa.Parameter:
 						return true
 					}
-					for d := snd.Block(); d != nil; d = d.Idom() {
+					for d := at; d != nil; d = d.Idom() {
 						if len(d.Preds) == 1 && IsErrEdge(d.Preds[0], d) {
 							if cond, _, ok := branchCond(d.Preds[0], d); ok {
 								if bo, ok := cond.(*ssa.BinOp); ok && (bo.X == s.Val || bo.Y == s.Val) {
@@ -631,7 +697,7 @@ var rR11 = RuleRef{Name: "R11", Doc: "fragmentation independence, structural par
 	flowOf = func(fn *ssa.Function, cell ssa.Value, depth int) (*Flow, *summ) {
 		sm := &summ{}
 		tr := func(in ssa.Instruction, s Set) (Set, bool) {
-			if isErrSend(in) {
+			if isErrSend(in) || errHandOff(in) {
 				s["ERRSENT|"+c.pos(in.Pos())] = true
 				sm.sends = true
 			}
@@ -699,7 +765,7 @@ var rR11 = RuleRef{Name: "R11", Doc: "fragmentation independence, structural par
 	for _, fn := range c.P.allFuncs("resp") {
 		for _, b := range fn.Blocks {
 			for _, in := range b.Instrs {
-				if isErrSend(in) {
+				if isErrSend(in) || errHandOff(in) {
 					nSend++
 				}
 			}
@@ -807,7 +873,7 @@ var rR18 = RuleRef{Name: "R18", Doc: "the apply loop cannot block: every executo
 	if filter == nil {
 		c.Undecided("R18", "anchor server.ClusterCmdFilter")
 	} else {
-		comparedStrings(helperScope(filter, 2), rejected)
+		rejectedStrings(helperScope(filter, 2), rejected)
 	}
 	// commands the cluster connection handler executes locally (never proposed)
 	for _, h := range c.connHandlers() {
@@ -919,7 +985,7 @@ func isLoopBody(b *ssa.BasicBlock) bool {
 var rR24 = RuleRef{Name: "R24", Doc: "replica determinism and snapshots: executors (all of which run in the apply loop in cluster mode) must not feed wall-clock time, randomness or Go's map iteration order into stored state; every dynamic type stored in the keyspace must be representable by the snapshot encoder GetSnapshot uses; a function that restores the keyspace from snapshot bytes must exist and be wired to start-up and to the nil-commit signal", Run: func(c *C) {
 	rejected := map[string]bool{}
 	if filter := c.P.Func("server", "ClusterCmdFilter"); filter != nil {
-		comparedStrings(helperScope(filter, 2), rejected)
+		rejectedStrings(helperScope(filter, 2), rejected)
 	}
 	var roots []*ssa.Function
 	for name, fn := range c.Facts.Executors {
@@ -1121,10 +1187,9 @@ var rR24 = RuleRef{Name: "R24", Doc: "replica determinism and snapshots: executo
 					if b.Dominates(bb) && bb != b {
 						if _, isRet := bb.Instrs[len(bb.Instrs)-1].(*ssa.Return); isRet {
 							// only if the loop can continue otherwise (the return block is inside the loop)
-							for _, s := range b.Succs {
-								if s.Dominates(bb) && len(b.Succs) == 2 {
-									early = true
-								}
+							// the body is the successor taken while the iterator yields elements (the first one)
+							if len(b.Succs) == 2 && b.Succs[0].Dominates(bb) {
+								early = true
 							}
 						}
 					}
@@ -1420,12 +1485,28 @@ var rR17cb = RuleRef{Name: "R17cb", Doc: "the table that maps proposal ids to wa
 	}
 }}
 
-// comparedStrings collects the string constants that the given functions compare a value with (== or switch cases).
+// rejectedStrings collects the string constants for which the filter (fns[0]; the other functions are the helpers it
+// may call) returns a non-nil error on every path: decided by symbolic execution of the filter with "the tested value
+// equals the constant", whatever the shape of the test (==, !=, switch, a boolean variable, De Morgan, a predicate helper).
+func rejectedStrings(fns []*ssa.Function, out map[string]bool) {
+	if len(fns) == 0 {
+		return
+	}
+	consts := map[string]bool{}
+	comparedStrings(fns, consts)
+	for str := range consts {
+		if rejectsFor(fns[0], str) {
+			out[str] = true
+		}
+	}
+}
+
+// comparedStrings collects the string constants that the given functions compare a value with (==, != or switch cases).
 func comparedStrings(fns []*ssa.Function, out map[string]bool) {
 	for _, fn := range fns {
 		for _, b := range fn.Blocks {
 			for _, in := range b.Instrs {
-				if bo, ok := in.(*ssa.BinOp); ok && bo.Op == token.EQL {
+				if bo, ok := in.(*ssa.BinOp); ok && (bo.Op == token.EQL || bo.Op == token.NEQ) {
 					for _, side := range []ssa.Value{bo.X, bo.Y} {
 						if s, ok := constString(side); ok {
 							out[s] = true
@@ -1449,4 +1530,193 @@ func sendsProposal(h *ssa.Function) bool {
 		}
 	}
 	return false
+}
+
+
+// predicateConsts: the string constants a function compares something with.
+func predicateConsts(fn *ssa.Function) []string {
+	m := map[string]bool{}
+	comparedStrings([]*ssa.Function{fn}, m)
+	var out []string
+	for k := range m {
+		out = append(out, k)
+	}
+	sort.Strings(out)
+	return out
+}
+
+// simulateFor explores a function symbolically for "the value it tests equals str": every comparison of anything
+// with a string constant is decided by that (== str); branches on such comparisons (and on booleans built from them,
+// including the phi form of || and &&) are followed, any other branch is explored both ways. visit is called for each
+// return reached, with an evaluator for values at that point (phis resolved by the edge taken).
+func simulateFor(fn *ssa.Function, str string, visit func(ret *ssa.Return, eval func(ssa.Value) (bool, bool), pick func(ssa.Value) ssa.Value)) {
+	if fn == nil || fn.Blocks == nil {
+		return
+	}
+	type state struct{ b, prev *ssa.BasicBlock }
+	seen := map[state]bool{}
+	var run func(b, prev *ssa.BasicBlock, depth int)
+	run = func(b, prev *ssa.BasicBlock, depth int) {
+		st := state{b, prev}
+		if seen[st] || depth > 200 {
+			return
+		}
+		seen[st] = true
+		var pick func(v ssa.Value) ssa.Value
+		pick = func(v ssa.Value) ssa.Value {
+			for d := 0; d < 8; d++ {
+				phi, ok := v.(*ssa.Phi)
+				if !ok || phi.Block() != b {
+					return v
+				}
+				found := false
+				for i, p := range b.Preds {
+					if p == prev {
+						v, found = phi.Edges[i], true
+						break
+					}
+				}
+				if !found {
+					return v
+				}
+			}
+			return v
+		}
+		var eval func(v ssa.Value, d int) (bool, bool)
+		eval = func(v ssa.Value, d int) (bool, bool) {
+			if d > 8 {
+				return false, false
+			}
+			v = pick(v)
+			switch x := v.(type) {
+			case *ssa.Const:
+				if x.Value == nil {
+					return false, false
+				}
+				return x.Value.ExactString() == "true", true
+			case *ssa.UnOp:
+				if x.Op == token.NOT {
+					r, k := eval(x.X, d+1)
+					return !r, k
+				}
+			case *ssa.BinOp:
+				if x.Op == token.EQL || x.Op == token.NEQ {
+					for _, side := range []ssa.Value{x.X, x.Y} {
+						if cs, ok := constString(side); ok {
+							return (cs == str) == (x.Op == token.EQL), true
+						}
+					}
+				}
+			case *ssa.Call:
+				// a boolean predicate helper applied to the tested value
+				if cf := x.Call.StaticCallee(); cf != nil && cf != fn && firstParty(cf) && simDepth < 3 {
+					simDepth++
+					r, k := predicateTrue(cf, str)
+					simDepth--
+					if k {
+						return r, true
+					}
+					if len(predicateConsts(cf)) > 0 {
+						// it tests strings but not this one on every path: it does not answer true for str
+						if f, kf := predicateFalse(cf, str); kf && f {
+							return false, true
+						}
+					}
+				}
+			}
+			return false, false
+		}
+		last := b.Instrs[len(b.Instrs)-1]
+		switch t := last.(type) {
+		case *ssa.Return:
+			visit(t, func(v ssa.Value) (bool, bool) { return eval(v, 0) }, pick)
+		case *ssa.If:
+			v, k := eval(t.Cond, 0)
+			if !k {
+				// a phi of an earlier block: its truth value is not known here; explore both ways
+				run(b.Succs[0], b, depth+1)
+				run(b.Succs[1], b, depth+1)
+				return
+			}
+			if v {
+				run(b.Succs[0], b, depth+1)
+			} else {
+				run(b.Succs[1], b, depth+1)
+			}
+		case *ssa.Jump:
+			run(b.Succs[0], b, depth+1)
+		}
+	}
+	run(fn.Blocks[0], nil, 0)
+}
+
+// predicateTrue: the boolean function answers true on every path for "the tested value equals str".
+func predicateTrue(fn *ssa.Function, str string) (result bool, known bool) {
+	if fn == nil || fn.Blocks == nil {
+		return false, false
+	}
+	r := fn.Signature.Results()
+	if r.Len() != 1 || !isBoolType(r.At(0).Type()) {
+		return false, false
+	}
+	n, allTrue, allKnown := 0, true, true
+	simulateFor(fn, str, func(ret *ssa.Return, eval func(ssa.Value) (bool, bool), pick func(ssa.Value) ssa.Value) {
+		n++
+		v, k := eval(ret.Results[0])
+		if !k {
+			allKnown = false
+		}
+		if !v {
+			allTrue = false
+		}
+	})
+	if n == 0 || !allKnown {
+		return false, false
+	}
+	return allTrue, true
+}
+
+// rejectsFor: every return the error-returning function can reach for "the tested value equals str" hands back a
+// non-nil error.
+func rejectsFor(fn *ssa.Function, str string) bool {
+	if fn == nil || fn.Blocks == nil || !returnsError(fn) {
+		return false
+	}
+	n, all := 0, true
+	simulateFor(fn, str, func(ret *ssa.Return, eval func(ssa.Value) (bool, bool), pick func(ssa.Value) ssa.Value) {
+		n++
+		rr := retResults(ret)
+		for _, v := range rr[len(rr)-1] {
+			if isNilConst(pick(v)) {
+				all = false
+			}
+		}
+	})
+	return n > 0 && all
+}
+
+
+var simDepth int
+
+// predicateFalse: the boolean function answers false on every path for "the tested value equals str".
+func predicateFalse(fn *ssa.Function, str string) (bool, bool) {
+	r := fn.Signature.Results()
+	if fn.Blocks == nil || r.Len() != 1 || !isBoolType(r.At(0).Type()) {
+		return false, false
+	}
+	n, allFalse, allKnown := 0, true, true
+	simulateFor(fn, str, func(ret *ssa.Return, eval func(ssa.Value) (bool, bool), pick func(ssa.Value) ssa.Value) {
+		n++
+		v, k := eval(ret.Results[0])
+		if !k {
+			allKnown = false
+		}
+		if v {
+			allFalse = false
+		}
+	})
+	if n == 0 || !allKnown {
+		return false, false
+	}
+	return allFalse, true
 }
